@@ -134,6 +134,9 @@ def run(env, rep):
                 why.append("%s is %s" % (fld, st[-1][2][:60] if st else "not set on a delivering path"))
     rep.check("C16.R2", "delivered-fields-from-working-header", deliver_ok and n_d >= 1, "a delivered message takes timestamp, type id and message stream id from the working header (%d delivering paths)" % n_d,
               "a message can be delivered with header fields that were not copied from the header of the chunk that completes it: %s" % sorted(set(why)), pay.span)
+    # ------------------------------------------------------------------ R4: a chunk carries min(missing, chunk size) bytes
+    if wants(rep, "C16.R4"):
+        chunk.payload_take(m, rep, "C16.R4")
     # ------------------------------------------------------------------ R3: distinct chunk streams get distinct keys
     from ..framework import PrefixReport
     from . import C06
